@@ -282,7 +282,13 @@ def run(ck, P):
           path=None)
     incs = [e for e in sl.events() if e.kind == "incdec" and e.e["op"] == "++" and S(e.lhs) == "len"] + \
            [e for e in sl.events() if e.kind == "assign" and S(e.lhs) == "len" and e.e["op"] == "+="]
-    oki = bool(incs) and all(any(a.endswith("->flags & 128)") and p is False for (a, p) in X.facts(sl, e)) for e in incs)
+    def _adds_not_internal(e):
+        # `len += !(src->flags & M_SRC_INTERNAL)`: the amount added is 1 exactly for the sources that are not internal
+        if e.kind != "assign" or e.rhs is None:
+            return False
+        r = strip(e.rhs)
+        return r["k"] == "un" and r["op"] == "!" and S(strip(r["e"])).endswith("->flags & 128)")
+    oki = bool(incs) and all(_adds_not_internal(e) or any(a.endswith("->flags & 128)") and p is False for (a, p) in X.facts(sl, e)) for e in incs)
     ck.ob("C09.4-COUNTS", sl.site("internal skipped"), oki, "%d counting site(s), each under !(src->flags & M_SRC_INTERNAL): %s" % (len(incs), oki))
 
     # ------------------------------------------------------------------ 5. dropped on stop, kept on pause
@@ -303,10 +309,10 @@ def run(ck, P):
     okdom = bool(loops)
     early = None
     if loops:
-        hdr = loops[0].id
+        hdrs = {b.id for b in loops}          # (the loop over the kinds may be written once per operation)
         dom_ = ms.dominators()
         for e in ms.events():
-            if e.kind == "ret" and hdr not in dom_[e.block.id]:
+            if e.kind == "ret" and not (hdrs & set(dom_[e.block.id])):
                 okdom = False
                 early = e
     ck.ob("C09.5-STOP-DROPS", ms.site("no return round the loop"), okdom,
@@ -463,6 +469,24 @@ def run(ck, P):
                   "%s tests %s of its argument; sources of this kind are identified by %s (%s)%s"
                   % (g.name, sorted(asked), sorted(keyf - ALTS), cf.name, "" if not extra else ": a deregistration by key alone — "
                      "a descriptor carrying just the identifying field(s) — is refused because of %s, which plays no part in finding the source" % sorted(extra)))
+
+    # a source can be registered and deregistered in every state of a live module (registration on a stopped module is armed at the next
+    # start): neither internal entry point refuses because of the module's state, ZOMBIE apart
+    for fname_ in ("register_mod_src", "deregister_mod_src"):
+        f = P.fn(fname_, SRC)
+        ck.analysed(f)
+        stg = []
+        for g_ in rules.bailouts(f):
+            if not (isinstance(g_.retval, int) and g_.retval < 0):
+                continue
+            for (a_, p_) in g_.cont_atoms:
+                m_ = re.match(r"^m_mod_is\(\*?\w+, (\d+)\)$", a_)
+                if (m_ and int(m_.group(1)) != X.ZOMBIE) or re.search(r"->state\b", a_):
+                    stg.append((a_, p_, g_.retval, g_.line))
+        ck.ob("C09.9-PASS-THROUGH", f.site("accepted in every state"), not stg,
+              "%s refuses for ZOMBIE modules only, whatever else the module's state" % fname_ if not stg else
+              "%s returns %d unless %s%s (line %d): a key that is present cannot be deregistered (or a source cannot be registered) while the module is in "
+              "that state" % (fname_, stg[0][2], "" if stg[0][1] else "!", stg[0][0], stg[0][3]))
 
     # ------------------------------------------------------------------ 8. library-internal sources have a key space of their own
     keyspace_obligations(ck, P, X, "C09.8-INTERNAL-KEYSPACE", cmps, E)
